@@ -467,7 +467,7 @@ def build_ts(desc):
 
 # ---- Coq term printing (Q_scope) -------------------------------------------------
 
-PRELUDE = ("From Coq Require Import QArith.\nFrom TskVerif Require Import Base.Common C08.Model C08.Incremental C08.Afs C08.Shapes C08.PairSpan.\n"
+PRELUDE = ("From Coq Require Import QArith.\nFrom TskVerif Require Import Base.Common C08.Model C08.Incremental C08.Afs C08.Shapes C08.PairSpan C08.Rf.\n"
            "Open Scope Q_scope.")
 
 
@@ -499,10 +499,13 @@ def coq_sites(desc):
     for si, (pos, anc, _m) in enumerate(desc["sites"]):
         ids = {anc: 0}
         muts = []
-        for m in desc["mutations"]:
+        local = {}       # global mutation index -> index within the site's list
+        for gi, m in enumerate(desc["mutations"]):
             if m[0] == si:
                 ids.setdefault(m[2], len(ids))
-                muts.append("mkmut %d%%Z %d%%Z" % (m[1], ids[m[2]]))
+                local[gi] = len(muts)
+                par = local[m[3]] if m[3] != NULL else -1
+                muts.append("mkmut %d%%Z %d%%Z %s" % (m[1], ids[m[2]], "(-1)%Z" if par < 0 else "%d%%Z" % par))
         out.append("mksite %s 0%%Z [%s] %s" % (cq(fr(pos)), "; ".join(muts), czl(gen_ts.parent_at(desc, fr(pos)))))
     return "[" + "; ".join(out) + "]"
 
@@ -538,7 +541,10 @@ def coq_stat_check(desc, W, k, sf, mode, polarised, span_normalise, wins, values
     pol, nrm = ("true" if polarised else "false"), ("true" if span_normalise else "false")
     ws = cqlist(wins)
     if mode == "site":
-        return "check_windows (site_stat %d%%nat (sf_eval %s) %s %s %s) %s %s %s" % (
+        # the specification (alleles decoded per sample) and the port of the C allele table
+        return ("check_windows (site_stat %d%%nat (sf_eval %s) %s %s %s) %s %s %s && "
+                "check_windows (site_stat_c %d%%nat (sf_eval %s) %s %s %s) %s %s %s") % (
+            k, sf, coq_W(W), pol, coq_sites(desc), nrm, ws, exp,
             k, sf, coq_W(W), pol, coq_sites(desc), nrm, ws, exp)
     if mode == "branch":
         t = "check_windows (branch_stat %d%%nat (sf_eval %s) %s %s %s %s) %s %s %s" % (
@@ -598,7 +604,7 @@ class GeneralStat(Family):
     timeout = 60.0
 
     def generate(self, rng, tier):
-        n = 260 if tier == "quick" else 4000
+        n = 500 if tier == "quick" else 5000
         for i in range(n):
             desc = gen_desc(rng, max_nodes=8 if i % 4 else 11, max_L=6 if i % 4 else 9)
             smp = samples_of(desc)
@@ -897,7 +903,7 @@ class NamedStat(Family):
     timeout = 60.0
 
     def generate(self, rng, tier):
-        n = 420 if tier == "quick" else 6000
+        n = 800 if tier == "quick" else 8000
         stats = PRIMARY + DERIVED
         for i in range(n):
             desc = gen_desc(rng, max_nodes=8 if i % 5 else 11, max_L=6 if i % 5 else 9)
@@ -1228,7 +1234,7 @@ class AFS(Family):
     timeout = 60.0
 
     def generate(self, rng, tier):
-        n = 200 if tier == "quick" else 3000
+        n = 400 if tier == "quick" else 4000
         for i in range(n):
             desc = gen_desc(rng, max_nodes=8 if i % 5 else 11, max_L=6)
             smp = samples_of(desc)
@@ -1404,7 +1410,7 @@ class Matrix(Family):
     THREADS = [1, 2, 3, 8]
 
     def generate(self, rng, tier):
-        n = 160 if tier == "quick" else 2500
+        n = 240 if tier == "quick" else 2500
         for i in range(n):
             desc = gen_desc(rng, max_nodes=9 if i % 3 else 12, max_L=6 if i % 3 else 10, max_sites=5)
             smp = samples_of(desc)
@@ -1625,7 +1631,7 @@ class Dedicated(Family):
     timeout = 120.0
 
     def generate(self, rng, tier):
-        n = 240 if tier == "quick" else 3600
+        n = 450 if tier == "quick" else 6000
         for i in range(n):
             what = ["mean_descendants", "gnn", "pair_coalescence_counts"][i % 3]
             desc = gen_desc(rng, max_nodes=9 if i % 2 else 12, max_L=6 if i % 2 else 10, max_sites=0,
@@ -1826,4 +1832,237 @@ class ProportionShape(Family):
         return {"idx": case["idx"], "nwin": case["nwin"], "mode": case["mode"], "raises": obs["shape"] is None}
 
 
-FAMILIES = [GeneralStat, NamedStat, AFS, Matrix, Dedicated, ProportionShape]
+
+# ---------------------------------------------------------------------------------
+# Family 7: LD r^2 (LdCalculator, ld_matrix) and tree distances (KC, Robinson-Foulds)
+# ---------------------------------------------------------------------------------
+
+def single_mutation_sites(rng, desc):
+    """rewrite the mutations: exactly one non-silent mutation per site (LdCalculator's domain)"""
+    d = dict(desc)
+    N = len(desc["nodes"])
+    d["sites"] = [[s[0], "0", ""] for s in desc["sites"]]
+    d["mutations"] = [[si, rng.randrange(N), "1", NULL, None, ""] for si in range(len(d["sites"]))]
+    return d
+
+
+def r2_exact(F_, a, b):
+    n = len(F_.samples)
+    ga, _ = F_.genotype(a)
+    gb, _ = F_.genotype(b)
+    A = {s for s in F_.samples if ga[s] == "1"}
+    B = {s for s in F_.samples if gb[s] == "1"}
+    pA, pB, pAB = Fr(len(A), n), Fr(len(B), n), Fr(len(A & B), n)
+    den = pA * (1 - pA) * pB * (1 - pB)
+    if den == 0:
+        return UNDEF
+    return (pAB - pA * pB) ** 2 / den
+
+
+def random_leaf_trees(rng, n, L):
+    """description of a tree sequence whose trees are single-rooted, without unary nodes,
+    with exactly the leaves 0..n-1 as samples (the domain of the KC distance)"""
+    nodes = [[1, 0, NULL, NULL, ""] for _ in range(n)]
+    nb = rng.randrange(0, min(L, 3))
+    bps = [0] + sorted(rng.sample(range(1, L), nb)) + [L] if L > 1 else [0, L]
+    edges = []
+    for a, b in zip(bps[:-1], bps[1:]):
+        roots = list(range(n))
+        t = 0
+        while len(roots) > 1:
+            k = min(len(roots), rng.choice([2, 2, 2, 3]))
+            ch = rng.sample(roots, k)
+            t += rng.choice([1, 1, 2])
+            p_ = len(nodes)
+            nodes.append([0, t, NULL, NULL, ""])
+            for c in ch:
+                edges.append([a, b, p_, c, ""])
+            roots = [r for r in roots if r not in ch] + [p_]
+    return {"L": L, "scale": 1, "nodes": nodes, "edges": edges, "sites": [], "mutations": [],
+            "individuals": [], "populations": [], "migrations": []}
+
+
+def kc_vectors(F_, x, lam):
+    """Kendall-Colijn vector of the tree at x: per sample pair (1-lam)*#edges(root..mrca) +
+    lam*(t[root]-t[mrca]); per sample (1-lam)*1 + lam*pendant branch length"""
+    smp = F_.samples
+    par = F_.parent(x)
+    v = []
+    for i, a in enumerate(smp):
+        for b in smp[i + 1:]:
+            ca, cb = F_.chain(x, a), F_.chain(x, b)
+            m = [w for w in ca if w in cb][0]
+            root = ca[-1]
+            depth = len(F_.chain(x, m)) - 1
+            v.append((1 - lam) * depth + lam * (F_.time[root] - F_.time[m]))
+    for a in smp:
+        v.append((1 - lam) * 1 + lam * (F_.time[par[a]] - F_.time[a]))
+    return v
+
+
+def clades(F_, x, drop_empty=True):
+    par = F_.parent(x)
+    b = below_sets(F_, x, F_.samples)
+    roots = [u for u in range(F_.N) if par[u] == NULL and b[u]]      # roots subtend samples
+    reach = set()
+    for u in range(F_.N):
+        c = F_.chain(x, u)
+        if c[-1] in roots:
+            reach.add(u)
+    out = {frozenset(b[u]) for u in reach}
+    if drop_empty:
+        out.discard(frozenset())
+    return out, roots
+
+
+class LdAndDistance(Family):
+    name = "ld_distance"
+    workers = 8
+    timeout = 60.0
+
+    def generate(self, rng, tier):
+        n = 300 if tier == "quick" else 3000
+        for i in range(n):
+            what = ["ld", "kc", "rf"][i % 3]
+            if what == "ld":
+                desc = single_mutation_sites(rng, gen_desc(rng, max_nodes=9, max_L=6, max_sites=5))
+                ns = len(desc["sites"])
+                yield {"what": "ld", "desc": desc,
+                       "a": rng.randrange(ns) if ns else 0, "direction": rng.choice([1, -1]),
+                       "max_sites": rng.choice([None, 1, 2]), "max_distance": rng.choice([None, [1, 1], [3, 2], [5, 2]])}
+            elif what == "kc":
+                nl, L = rng.randrange(2, 6), rng.randrange(1, 6)
+                yield {"what": "kc", "desc": random_leaf_trees(rng, nl, L), "desc2": random_leaf_trees(rng, nl, L),
+                       "lam": rng.choice([[0, 1], [1, 1], [1, 2], [1, 4]])}
+            else:
+                if rng.random() < 0.5:
+                    nl = rng.randrange(2, 6)
+                    yield {"what": "rf", "desc": random_leaf_trees(rng, nl, 1), "desc2": random_leaf_trees(rng, nl, 1)}
+                else:
+                    d1 = gen_desc(rng, max_nodes=8, max_L=1, max_sites=0)
+                    d2 = dict(d1)
+                    # same nodes (hence same samples), different random forest
+                    d2["edges"] = gen_desc_like(rng, d1)
+                    yield {"what": "rf", "desc": d1, "desc2": d2}
+
+    def observe(self, case):
+        import tskit
+        ts = build_ts(case["desc"])
+        try:
+            if case["what"] == "ld":
+                if ts.num_sites == 0:
+                    return {"skip": True}
+                ld = tskit.LdCalculator(ts)
+                md = None if case["max_distance"] is None else float(fr(case["max_distance"]))
+                out = {"matrix": encf(ld.r2_matrix()),
+                       "array": encf(ld.r2_array(case["a"], direction=case["direction"], max_sites=case["max_sites"], max_distance=md)),
+                       "pair": encf(ld.r2(case["a"], ts.num_sites - 1))}
+                try:
+                    out["ld_matrix"] = encf(ts.ld_matrix(stat="r2"))
+                except Exception as e:
+                    out["ld_matrix_err"] = "%s: %s" % (type(e).__name__, str(e)[:100])
+                return out
+            ts2 = build_ts(case["desc2"])
+            if case["what"] == "kc":
+                lam = float(fr(case["lam"]))
+                return {"ts": encf(ts.kc_distance(ts2, lam)),
+                        "tree": encf(ts.first(sample_lists=True).kc_distance(ts2.first(sample_lists=True), lam))}
+            return {"rf": int(ts.first().rf_distance(ts2.first()))}
+        except Exception as e:
+            return {"err": type(e).__name__, "msg": str(e)[:200]}
+
+    def oracle(self, case, obs):
+        if obs.get("skip"):
+            return []
+        F_ = Forests(case["desc"])
+        fails = []
+        if case["what"] == "ld":
+            if "err" in obs:
+                return [("unexpected-error/ld", "%s: %s" % (obs["err"], obs["msg"]))]
+            ns = len(case["desc"]["sites"])
+            M = [[(Fr(1) if i == j else r2_exact(F_, i, j)) for j in range(ns)] for i in range(ns)]
+            msgs = compare(obs["matrix"], M)
+            if msgs:
+                fails.append(("definition/ld/r2_matrix", "; ".join(msgs[:3])))
+            if "ld_matrix" in obs:
+                M2 = [[r2_exact(F_, i, j) for j in range(ns)] for i in range(ns)]
+                msgs = compare(obs["ld_matrix"], M2)
+                if msgs:
+                    fails.append(("definition/ld/ld_matrix-r2", "; ".join(msgs[:3])))
+            a, d = case["a"], case["direction"]
+            pos = site_positions(case["desc"])
+            idxs = list(range(a + 1, ns)) if d == 1 else list(range(a - 1, -1, -1))
+            exp = []
+            for b in idxs:
+                if case["max_sites"] is not None and len(exp) >= case["max_sites"]:
+                    break
+                if case["max_distance"] is not None and abs(pos[b] - pos[a]) > fr(case["max_distance"]):
+                    break
+                exp.append(r2_exact(F_, a, b))
+            msgs = compare(obs["array"], exp)
+            if msgs:
+                fails.append(("definition/ld/r2_array", "; ".join(msgs[:3])))
+            msgs = compare(obs["pair"], Fr(1) if a == ns - 1 else r2_exact(F_, a, ns - 1))
+            if msgs and a != ns - 1:
+                fails.append(("definition/ld/r2", "; ".join(msgs[:3])))
+            return fails
+        F2 = Forests(case["desc2"])
+        if case["what"] == "kc":
+            if "err" in obs:
+                return [("unexpected-error/kc", "%s: %s" % (obs["err"], obs["msg"]))]
+            lam = fr(case["lam"])
+
+            def dist(x):
+                v1, v2 = kc_vectors(F_, x, lam), kc_vectors(F2, x, lam)
+                return math.sqrt(float(sum((p_ - q) ** 2 for p_, q in zip(v1, v2))))
+            L = case["desc"]["L"]
+            exp_ts = sum(dist(x) for x in range(L)) / L
+            if abs(obs["tree"] - dist(0)) > TOL * max(1.0, dist(0)):
+                fails.append(("definition/kc/tree", "got %r expected %r" % (obs["tree"], dist(0))))
+            if abs(obs["ts"] - exp_ts) > TOL * max(1.0, exp_ts):
+                fails.append(("definition/kc/tree-sequence", "got %r expected %r" % (obs["ts"], exp_ts)))
+            return fails
+        c1, r1 = clades(F_, 0)
+        c2, r2 = clades(F2, 0)
+        if len(r1) != 1 or len(r2) != 1:
+            if obs.get("err") != "ValueError":
+                fails.append(("rf/multiple-roots-accepted", "roots %r %r: %r" % (r1, r2, obs)))
+            return fails
+        if "err" in obs:
+            return [("unexpected-error/rf", "%s: %s" % (obs["err"], obs["msg"]))]
+        if obs["rf"] != len(c1 ^ c2):
+            e1, _ = clades(F_, 0, drop_empty=False)
+            e2, _ = clades(F2, 0, drop_empty=False)
+            key = "rf/empty-clade-of-sampleless-subtree" if obs["rf"] == len(e1 ^ e2) else "definition/rf"
+            fails.append((key, "rf_distance = %d, symmetric difference of the sample bipartitions = %d" % (obs["rf"], len(c1 ^ c2))))
+        return fails
+
+    prelude = PRELUDE
+
+    def coq_check(self, case, obs):
+        """rf_distance against the model of the code (which counts the empty sample set of a
+        sample-less subtree, finding C08-F4)"""
+        if case["what"] != "rf" or "rf" not in obs:
+            return None
+        d1, d2 = case["desc"], case["desc2"]
+        return "(rf_code %s %s %s =? %d%%Z)%%Z" % (czl(gen_ts.parent_at(d1, 0)), czl(gen_ts.parent_at(d2, 0)),
+                                                 czl(samples_of(d1)), obs["rf"])
+
+    def describe(self, case, obs):
+        return {"what": case["what"]}
+
+
+def gen_desc_like(rng, d1):
+    """another random forest over the nodes of d1 on [0,1)"""
+    times = [nd[1] for nd in d1["nodes"]]
+    n = len(times)
+    edges = []
+    for u in range(n):
+        older = [v for v in range(n) if times[v] > times[u]]
+        if older and rng.random() > 0.2:
+            older.sort(key=lambda v: (times[v], v))
+            edges.append([0, d1["L"], older[min(int(rng.expovariate(0.7)), len(older) - 1)], u, ""])
+    return edges
+
+
+FAMILIES = [GeneralStat, NamedStat, AFS, Matrix, Dedicated, ProportionShape, LdAndDistance]
